@@ -72,14 +72,18 @@ Fixpoint mrun_lines (s : mstate) (ls : list (res line)) : res mstate :=
   | r :: rest => let! l := r in let! s' := mstep s l in mrun_lines s' rest
   end.
 
-Definition parse_master (input : str) : res MasterPlaylist :=
-  let! rest := tag input pfx_ExtM3u in
-  let! s := mrun_lines {| ms_indep := false; ms_start := None; ms_media := []; ms_variants := [];
-                          ms_sdata := []; ms_skeys := []; ms_unknown := [] |} (lines_of rest) in
+Definition ms_init : mstate :=
+  {| ms_indep := false; ms_start := None; ms_media := []; ms_variants := []; ms_sdata := [];
+     ms_skeys := []; ms_unknown := [] |}.
+Definition finish_master (s : mstate) : res MasterPlaylist :=
   let p := {| ma_indep := ms_indep s; ma_start := ms_start s; ma_media := rev (ms_media s);
               ma_variants := rev (ms_variants s); ma_sdata := rev (ms_sdata s);
               ma_skeys := rev (ms_skeys s); ma_unknown := rev (ms_unknown s) |} in
   if validate_master p then Ok p else Err.
+Definition parse_master_items (ls : list (res line)) : res MasterPlaylist :=
+  let! s := mrun_lines ms_init ls in finish_master s.
+Definition parse_master (input : str) : res MasterPlaylist :=
+  let! rest := tag input pfx_ExtM3u in parse_master_items (lines_of rest).
 
 (* ---------- RequiredVersion ---------- *)
 Definition master_rv (p : MasterPlaylist) : N :=
